@@ -604,6 +604,10 @@ Definition unlock_blocked (s : state) (p : path) : bool :=
   existsb (fun n => is_prefix p (n_path n)
                     && existsb (fun q => match find_node s q with Some a => flag_locked a | None => false end) (n_parents n)) (nodes s).
 
+(* _check_unlock clears the record of a TensorDict.  A lazy stack: before D56 (C05) its parents were derived from its members'
+   (no setter: AttributeError, pass); since D56 it has a record of its own, cleared here as well.  The model keeps the stack's
+   record in both versions: a stale entry is harmless, because a node that is flagged again has registered itself again in
+   every node below it on the way down (_propagate_lock), and [unlock_blocked] only asks for parents that are flagged. *)
 Definition clear_parents (s : state) (p : path) : state :=
   upd_nodes s (fun n => if is_prefix p (n_path n) && nkind_eqb (n_kind n) NTD
                         then with_lock n (n_flag n) [] (n_memmap n) (n_cache n) else n).
